@@ -6,6 +6,7 @@ from abc import ABC
 from abc import abstractmethod
 from typing import TYPE_CHECKING
 from typing import Generic
+from typing import Iterable
 from typing import List
 from typing import Sequence
 from typing import TypeVar
@@ -288,21 +289,20 @@ class RelativeFilterQuery(FilterQuery):
 
     def evaluate(self, context: FilterContext) -> object:
         """Evaluate the filter expression in the given _context_."""
-        if not isinstance(context.current, (list, dict)):
-            if self.query.empty():
-                # `@` selects the current node, whatever its value is.
-                return JSONPathNodeList(
-                    [
-                        JSONPathNode(
-                            value=context.current,
-                            location=(),
-                            root=context.root,
-                        )
-                    ]
-                )
-            return JSONPathNodeList()
+        # Start from the current node, but keep the root of the query argument
+        # so that `$` inside nested filters still means the document root.
+        nodes: Iterable[JSONPathNode] = [
+            JSONPathNode(
+                value=context.current,
+                location=(),
+                root=context.root,
+            )
+        ]
 
-        return JSONPathNodeList(self.query.find(context.current))
+        for segment in self.query.segments:
+            nodes = segment.resolve(nodes)
+
+        return JSONPathNodeList(nodes)
 
 
 class RootFilterQuery(FilterQuery):
